@@ -17,7 +17,9 @@ use crate::core::*;
 use crate::execs::*;
 
 /// (text, detached)
-pub const SNIPPETS: [(&str, bool); 30] = [
+pub const SNIPPETS: [(&str, bool); 31] = [
+    // a function whose body only parses with extglob (enabled on the line before, as it has to be in any bash)
+    ("shopt -s extglob\nxg() { case \"$1\" in @(a|b)) echo in;; *) echo out;; esac; }", false),
     ("export X=v1", false),
     ("export X=v2", false),
     ("unset X", false),
@@ -52,6 +54,8 @@ pub const SNIPPETS: [(&str, bool); 30] = [
 
 pub const PROBE: &str = r#"declare -p X Y Z arr m n 2>/dev/null
 declare -f f
+declare -f xg
+xg a 2>/dev/null || true
 alias g 2>/dev/null
 set +o | grep -E ' (noclobber|nounset|noglob)$'
 shopt -p extglob nullglob
@@ -206,7 +210,7 @@ impl Engine for VcState {
 
     fn bound(&self, tier: Tier) -> String {
         format!(
-            "breadth-first search from the empty history over {} state-changing snippets (export/modify/unset variables, values with spaces/newlines/quotes/non-ASCII, indexed and associative arrays, integer attribute, functions, aliases, set -o noclobber/-u/-f, shopt, cd, pushd/popd, state-dependent updates, two detached snippets); states are merged on the reference probe output; every transition out of every state at depth < {} is executed",
+            "breadth-first search from the empty history over {} state-changing snippets (a function that needs extglob to be parsed, export/modify/unset variables, values with spaces/newlines/quotes/non-ASCII, indexed and associative arrays, integer attribute, functions, aliases, set -o noclobber/-u/-f, shopt, cd, pushd/popd, state-dependent updates, two detached snippets); states are merged on the reference probe output; every transition out of every state at depth < {} is executed",
             SNIPPETS.len(),
             if tier == Tier::Quick { 2 } else { 4 }
         )
